@@ -52,3 +52,9 @@ pub fn vf_chunk3(v: &Vec<[u32; 2]>, c: usize) -> (r: &[[u32; 2]])
 pub fn vf_firsts(v: &Vec<([u32; 2], usize)>) -> (r: Vec<[u32; 2]>)
     ensures r.len() == v.len(), forall|j: int| 0 <= j < v.len() ==> #[trigger] r[j] == v[j].0,
 { v.iter().map(|(edge, _)| *edge).collect() }
+
+// `S.iter().all(|v| M.contains_key(v))` : every member of the set is a key of the map (D7 repair of identify_edges)
+#[verifier::external_body]
+pub fn vf_all_are_keys(s: &HashSet<u32>, m: &HashMap<u32, u32>) -> (r: bool)
+    ensures r <==> forall|v: u32| s@.contains(v) ==> #[trigger] m@.contains_key(v),
+{ s.iter().all(|v| m.contains_key(v)) }
